@@ -33,7 +33,7 @@ func runScenario(c *core.Ctx, class, desc string, sc *Scenario, gt func(errClass
 }
 
 func C11(c *core.Ctx) {
-	c.Rule = "honest worlds from the generator (fresh PKI and keys, random field contents, SVN vectors, TDX module versions 0..255, matching UpToDate level, CRLs listing unrelated serials) at the three option levels; QE auth data lengths 0..65535, trailing NUL, extra bytes; signatures with leading zero bytes in r / s; pairwise distinct verification times anywhere inside all validity windows; the Intel sample quote under the embedded root at its reference time. non-trivial = every case (each is a full verification); distinct = distinct worlds x level"
+	c.Rule = "honest worlds from the generator (fresh PKI and keys, random field contents, SVN vectors, TDX module versions 0..255, matching UpToDate level, CRLs listing unrelated serials) at the three option levels; QE auth data lengths 0..65535, trailing NUL, extra bytes; signatures with leading zero bytes in r / s; pairwise distinct verification times anywhere inside all validity windows; worlds whose documents, CRLs and PCK leaf end at staggered dates with each time-set entry one day before the end of its own artefact; the Intel sample quote under the embedded root at its reference time. non-trivial = every case (each is a full verification); distinct = distinct worlds x level"
 	r := c.Rng
 	levels := []struct {
 		name     string
@@ -81,6 +81,42 @@ func C11(c *core.Ctx) {
 				}
 				return ""
 			}, true)
+		}
+	}
+	// staggered validity: every document and the PCK leaf expire at a date of their own, and each
+	// entry of the time set sits one day before the end of its own artefact -- hence after the end
+	// of some of the others. Honest and in date at its own time: must be accepted.
+	day := 24 * time.Hour
+	for i := 0; i < c.Scale(12, 200); i++ {
+		perm := r.Perm(5)
+		end := func(k int) time.Time { return baseTime.Add(time.Duration(10*(perm[k]+1)) * day) }
+		eTcb, eQe, ePckCrl, eRootCrl, eLeaf := end(0), end(1), end(2), end(3), end(4)
+		far := baseTime.Add(5 * 365 * day)
+		start := baseTime.Add(-365 * day)
+		pki, err := world.NewPKI(r, world.PKIOpts{Now: baseTime, Ext: world.RandomSGXExt(r),
+			Windows: map[string][2]time.Time{"root": {start, far}, "inter": {start, far}, "tcbsigner": {start, far}, "leaf": {start, eLeaf}}})
+		if err != nil {
+			panic(err)
+		}
+		w, err := world.BuildWorld(r, baseTime, pki, world.DefaultQuoteFields(r))
+		if err != nil {
+			panic(err)
+		}
+		w.TcbInfo.NextUpdate, w.QeIdentity.NextUpdate = eTcb, eQe
+		w.Seal(r)
+		w.PckCrl, _ = world.MakeCRL(r, pki.Inter, nil, start, ePckCrl, 3)
+		w.RootCrl, _ = world.MakeCRL(r, pki.Root, nil, start, eRootCrl, 3)
+		for _, l := range levels {
+			sc := scenarioFromWorld(w, l.col, l.crl)
+			sc.Now = &verify.TimeSet{PckCertChain: eLeaf.Add(-day), TcbInfo: eTcb.Add(-day), QeIdentity: eQe.Add(-day), PckCrl: ePckCrl.Add(-day), RootCaCrl: eRootCrl.Add(-day)}
+			l := l
+			runScenario(c, "honest-staggered/"+l.name, fmt.Sprintf("staggered world %d (ends after 10d x tcb=%d qe=%d pckcrl=%d rootcrl=%d leaf=%d)", i, perm[0]+1, perm[1]+1, perm[2]+1, perm[3]+1, perm[4]+1), sc,
+				func(cl uint64, err error) string {
+					if cl != 0 {
+						return fmt.Sprintf("honest quote with every artefact in date at its own verification time rejected at level %s: %v", l.name, err)
+					}
+					return ""
+				}, true)
 		}
 	}
 	// the genuine Intel sample quote under the embedded root at its reference time
